@@ -9,6 +9,7 @@ import (
 	"net/url"
 	"os"
 	"path/filepath"
+	"strings"
 	"time"
 
 	"github.com/hnakamur/whispertool"
@@ -112,6 +113,9 @@ func getFileDataFromRemote(reqURL string) (*whispertool.Header, TimeSeriesList, 
 	if err != nil {
 		return nil, nil, err
 	}
+	if err := checkRemoteStatus(resp, data); err != nil {
+		return nil, nil, err
+	}
 
 	if len(data) == 0 {
 		return nil, nil, convertRemoteErrNotExist(resp)
@@ -130,6 +134,15 @@ func getFileDataFromRemote(reqURL string) (*whispertool.Header, TimeSeriesList, 
 		}
 	}
 	return h, tsList, nil
+}
+
+// checkRemoteStatus returns an error for a response whose status is not 200 OK;
+// body is the response body already read (the server sends the error message there).
+func checkRemoteStatus(resp *http.Response, body []byte) error {
+	if resp.StatusCode != http.StatusOK {
+		return fmt.Errorf("remote server returned %s: %s", resp.Status, strings.TrimSpace(string(body)))
+	}
+	return nil
 }
 
 func convertRemoteErrNotExist(resp *http.Response) error {
